@@ -300,4 +300,128 @@ theorem Jac.sub_spec {b : F} [ShortW b] {P Q : Jac F} (hP : Jac.OnCurve b P)
   unfold Jac.sub
   exact ⟨ha.1, by rw [ha.2, hn.2, sub_eq_add_neg]⟩
 
+/-! ## affine points, conversions -/
+
+theorem Aff.onCurve_zero (b : F) : Aff.OnCurve b (Aff.zero : Aff F) := Or.inl rfl
+
+theorem Aff.abs_zero (b : F) [ShortW b] : Aff.abs b (Aff.zero : Aff F) = 0 :=
+  Aff.abs_of_infinity rfl
+
+theorem Aff.abs_mk_false {b : F} [ShortW b] {x y : F} (h : y ^ 2 = x ^ 3 + b) :
+    Aff.abs b ⟨x, y, false⟩ = Point.some x y (W_nonsingular b h) :=
+  Aff.abs_of_not_infinity (A := ⟨x, y, false⟩) (Or.inr h) rfl
+
+theorem Aff.isOnCurve_iff (b : F) (A : Aff F) : A.isOnCurve b = true ↔ Aff.OnCurve b A := by
+  unfold Aff.isOnCurve Aff.OnCurve
+  by_cases hi : A.infinity = true
+  · simp [hi]
+  · have e : A.y * A.y = A.x * A.x * A.x + b ↔ A.y ^ 2 = A.x ^ 3 + b := by
+      rw [show A.y * A.y = A.y ^ 2 by ring, show A.x * A.x * A.x = A.x ^ 3 by ring]
+    simp [hi, e]
+
+theorem Aff.toJac_spec {b : F} [ShortW b] {A : Aff F} (h : Aff.OnCurve b A) :
+    Jac.OnCurve b A.toJac ∧ Jac.abs b A.toJac = Aff.abs b A := by
+  by_cases hi : A.infinity = true
+  · have : A.toJac = Jac.zero := by simp [Aff.toJac, hi]
+    rw [this, Aff.abs_of_infinity hi]
+    exact ⟨Jac.onCurve_zero b, Jac.abs_zero b⟩
+  · have hi' : A.infinity = false := by simpa using hi
+    have : A.toJac = ⟨A.x, A.y, 1⟩ := by simp [Aff.toJac, hi']
+    rw [this, Aff.abs_of_not_infinity h hi']
+    apply Jac.abs_eq_some (P := ⟨A.x, A.y, 1⟩) one_ne_zero <;> simp
+
+theorem Aff.neg_spec {b : F} [ShortW b] {A : Aff F} (h : Aff.OnCurve b A) :
+    Aff.OnCurve b A.neg ∧ Aff.abs b A.neg = -Aff.abs b A := by
+  by_cases hi : A.infinity = true
+  · have : A.neg = A := by simp [Aff.neg, hi]
+    rw [this, Aff.abs_of_infinity hi]
+    exact ⟨h, rfl⟩
+  · have hi' : A.infinity = false := by simpa using hi
+    have e : A.neg = ⟨A.x, -A.y, false⟩ := by simp [Aff.neg, hi']
+    have hxy : A.y ^ 2 = A.x ^ 3 + b := h.resolve_left hi
+    have hxy' : (-A.y) ^ 2 = A.x ^ 3 + b := by rw [neg_sq]; exact hxy
+    rw [e, Aff.abs_of_not_infinity h hi', Point.neg_some, Aff.abs_mk_false hxy']
+    exact ⟨Or.inr hxy', Point.some_eq_some.mpr ⟨rfl, by rw [W_negY]⟩⟩
+
+/-- mixed addition is addition with the affine operand lifted to `z = 1`, as values -/
+theorem Jac.addMixed_eq_add (P : Jac F) {A : Aff F} (hi : A.infinity = false) :
+    P.addMixed A = P.add A.toJac := by
+  have e : A.toJac = ⟨A.x, A.y, 1⟩ := by simp [Aff.toJac, hi]
+  rw [e]
+  by_cases hz : P.z = 0
+  · simp [Jac.addMixed, Jac.add, hi, hz]
+  have i1 : P.isZero = false := (Jac.isZero_eq_false_iff P).mpr hz
+  have i2 : (⟨A.x, A.y, 1⟩ : Jac F).isZero = false := (Jac.isZero_eq_false_iff _).mpr one_ne_zero
+  simp only [Jac.addMixed, Jac.add, hi, i1, i2, Bool.false_eq_true, if_false,
+    LawfulFieldOps.sq_eq, LawfulFieldOps.dbl_eq, mul_one]
+  split_ifs
+  · rfl
+  · simp only [Jac.mk.injEq]
+    refine ⟨by ring, by ring, by ring⟩
+
+theorem Jac.addMixed_spec {b : F} [ShortW b] {P : Jac F} {A : Aff F} (hP : Jac.OnCurve b P)
+    (hA : Aff.OnCurve b A) :
+    Jac.OnCurve b (P.addMixed A) ∧ Jac.abs b (P.addMixed A) = Jac.abs b P + Aff.abs b A := by
+  by_cases hi : A.infinity = true
+  · have : P.addMixed A = P := by simp [Jac.addMixed, hi]
+    rw [this, Aff.abs_of_infinity hi]
+    exact ⟨hP, (add_zero _).symm⟩
+  · have hi' : A.infinity = false := by simpa using hi
+    have hJ := Aff.toJac_spec hA
+    have ha := Jac.add_spec hP hJ.1
+    rw [Jac.addMixed_eq_add P hi']
+    exact ⟨ha.1, by rw [ha.2, hJ.2]⟩
+
+theorem Jac.subMixed_spec {b : F} [ShortW b] {P : Jac F} {A : Aff F} (hP : Jac.OnCurve b P)
+    (hA : Aff.OnCurve b A) :
+    Jac.OnCurve b (P.subMixed A) ∧ Jac.abs b (P.subMixed A) = Jac.abs b P - Aff.abs b A := by
+  have hn := Aff.neg_spec hA
+  have ha := Jac.addMixed_spec hP hn.1
+  unfold Jac.subMixed
+  exact ⟨ha.1, by rw [ha.2, hn.2, sub_eq_add_neg]⟩
+
+/-- `toAffine` in closed form: on `z ≠ 0` the inverse exists, so the `unwrap` cannot panic -/
+theorem Jac.toAffine_eq (P : Jac F) :
+    P.toAffine = some (if P.z = 0 then Aff.zero else if P.z = 1 then ⟨P.x, P.y, false⟩
+      else ⟨P.x * (P.z⁻¹ * P.z⁻¹), P.y * (P.z⁻¹ * P.z⁻¹ * P.z⁻¹), false⟩) := by
+  unfold Jac.toAffine
+  by_cases hz : P.z = 0
+  · simp [hz]
+  have i1 : P.isZero = false := (Jac.isZero_eq_false_iff P).mpr hz
+  by_cases h1 : P.z = 1
+  · simp [i1, h1]
+  · simp [i1, hz, h1, LawfulFieldOps.inv_ne P.z hz]
+
+theorem Jac.toAffine_spec {b : F} [ShortW b] {P : Jac F} (hP : Jac.OnCurve b P) :
+    ∃ A, P.toAffine = some A ∧ Aff.OnCurve b A ∧ Aff.abs b A = Jac.abs b P := by
+  refine ⟨_, Jac.toAffine_eq P, ?_⟩
+  by_cases hz : P.z = 0
+  · rw [if_pos hz, Jac.abs_of_z_eq_zero hz]
+    exact ⟨Aff.onCurve_zero b, Aff.abs_zero b⟩
+  rw [if_neg hz, Jac.abs_of_z_ne_zero hP hz]
+  have haff := Jac.affine_eq_of_onCurve hP hz
+  by_cases h1 : P.z = 1
+  · rw [if_pos h1]
+    have hxy : P.y ^ 2 = P.x ^ 3 + b := by simpa [h1] using haff
+    rw [Aff.abs_mk_false hxy]
+    exact ⟨Or.inr hxy, Point.some_eq_some.mpr ⟨by simp [h1], by simp [h1]⟩⟩
+  · rw [if_neg h1]
+    have ex : P.x * (P.z⁻¹ * P.z⁻¹) = P.x / P.z ^ 2 := by field_simp
+    have ey : P.y * (P.z⁻¹ * P.z⁻¹ * P.z⁻¹) = P.y / P.z ^ 3 := by field_simp
+    rw [ex, ey, Aff.abs_mk_false haff]
+    exact ⟨Or.inr haff, rfl⟩
+
+theorem Jac.toAffine_toJac_of_not_infinity {A : Aff F} (hi : A.infinity = false) :
+    A.toJac.toAffine = some A := by
+  have e : A.toJac = ⟨A.x, A.y, 1⟩ := by simp [Aff.toJac, hi]
+  rw [Jac.toAffine_eq, e]
+  cases A
+  simp_all
+
+theorem Jac.toAffine_toJac_of_infinity {A : Aff F} (hi : A.infinity = true) :
+    A.toJac.toAffine = some Aff.zero := by
+  have e : A.toJac = Jac.zero := by simp [Aff.toJac, hi]
+  rw [Jac.toAffine_eq, e]
+  simp [Jac.zero]
+
 end PP
